@@ -1,56 +1,43 @@
 (* C06 - Sorter output is the sorted, merged input regardless of chunking.
-   FULL STATEMENT: C06_statement.  PROVED so far: the spill bound (T06b: after every add
-   the buffered entries are below max_memory, so a spill has happened no later than when
-   the limit is reached), the refusal of adds once iteration has begun (T06d), and that
-   every written chunk has strictly increasing keys for ANY sort function that orders by
-   key - qsort is not assumed stable - (T06c_chunk_sorted_partial).  NOT yet proved: the
-   cross-chunk merge (it is C04's statement applied to the chunks) and hence the full
-   output statement.  Engine so compares implementation, model and specification over
-   add sequences x memory limits (1 .. everything in memory, incl. the boundary of the
-   spill rule) x pools 0..8 x {iterator, mtbl_sorter_write}; the mkstemp shim checks
-   that every spill file template lies in the configured directory. *)
+   PROVED:
+   T06a_sorter_output - for every sequence of adds, every memory limit (hence every split into
+     chunks), every qsort (any function returning a key-sorted permutation: stability is not
+     assumed) and every total, associative merge function: all adds succeed, mtbl_sorter_iter
+     returns an iterator, and draining it yields every distinct key once, in strictly ascending
+     order, each with the left fold of the merge function over some arrangement of exactly the
+     values added for that key.  (Chunks are folded when written, the merger folds the chunk
+     results: associativity turns that tree into a fold of the values - for a merge function
+     that is not associative the sorter's result genuinely depends on the chunking, which is
+     why the statement carries the hypothesis.)
+   T06b - after every add the buffered entries are below max_memory: a spill happens no later
+     than when the limit is reached.   T06d - adds after iteration has begun are refused.
+   T06c - every written chunk has strictly increasing keys.
+   The thread pool has no counterpart in the sequential model (only the order in which chunk
+   readers are collected depends on it; the merger theorem is insensitive to the order of the
+   sources); spill files inside the configured directory is a fact about mkstemp templates.
+   Both are checked by engine so, which compares implementation, model and specification over
+   add sequences x memory limits (1 .. everything in memory, incl. the boundary of the spill
+   rule) x pools 0..8 x {iterator, mtbl_sorter_write} x {concatenating, failing} merge. *)
 From Coq Require Import NArith List Lia.
-From Mtbl Require Import gen.Consts model.Bytes model.Order model.Heap model.Merger model.Sorter spec.MergeSpec proofs.SorterProofs.
+From Coq Require Import Permutation Sorting.Sorted.
+From Mtbl Require Import gen.Consts model.Bytes model.Order model.Heap model.Merger model.Sorter spec.MergeSpec proofs.SorterProofs
+  proofs.MergerProofs proofs.MergerClosed proofs.SorterFull.
 Local Open Scope N_scope.
 
-Section C06.
-Variable mf : bytes -> bytes -> bytes -> option bytes.
-Variable sort : list entry -> list entry.
-
-Fixpoint adds (s : sorter) (ops : list entry) : res sorter :=
-  match ops with
-  | [] => Ok s
-  | (k, v) :: tl => match sorter_add (Some mf) sort s k v with
-                    | Ok (s', _) => adds s' tl
-                    | Fail => Fail | Abort => Abort | Oob => Oob
-                    end
-  end.
-Fixpoint sdrain (fuel : nat) (it : miter) : list entry :=
-  match fuel with
-  | O => []
-  | S f => match sorter_next (Some mf) it with (it', Some e) => e :: sdrain f it' | (_, None) => [] end
-  end.
-
-(* each distinct key once, ascending; the value is a fold over some arrangement of exactly the
-   values added for the key - as a binary tree of merges whose shape depends on the chunking;
-   for an associative-commutative merge function that is the fold in any order *)
-Definition C06_statement : Prop :=
-  (forall l, Permutation.Permutation (sort l) l /\ keys_le (sort l)) ->
-  (forall k a b, mf k a b <> None) ->
-  (forall k a b c, mf k a b = Some c -> forall d e, mf k c d = Some e -> exists f, mf k b d = Some f /\ mf k a f = Some e) ->
-  forall max_memory ops, 1 <= max_memory ->
-    match adds (sorter_init max_memory) ops with
-    | Ok s => match sorter_iter (Some mf) sort s with
-              | Ok (_, Some it) =>
-                let out := sdrain (S (length ops)) it in
-                map fst out = all_keys [ops] /\
-                Forall (fun e => exists first rest, Permutation.Permutation (first :: rest) (values_for (fst e) [ops]) /\
-                                                    fold_merge mf (fst e) first rest = Some (snd e)) out
-              | _ => False
-              end
-    | _ => False
-    end.
-End C06.
+Theorem T06a_sorter_output :
+  forall (f : bytes -> bytes -> bytes -> bytes) (sort : list entry -> list entry),
+  (forall k a b c, f k (f k a b) c = f k a (f k b c)) ->
+  (forall l, Permutation (sort l) l) -> (forall l, keys_le (sort l)) ->
+  forall max_memory ops,
+  exists s, adds f sort (sorter_init max_memory) ops = Ok s /\
+  exists s' it, sorter_iter (Some (mf f)) sort s = Ok (s', Some it) /\
+    let out := mdrain (mf f) (S (length ops)) it in
+    StronglySorted (fun a b => bcmp (fst a) (fst b) = Lt) out /\
+    (forall k, In k (map fst out) <-> In k (map fst ops)) /\
+    Forall (fun e => exists first rest, Permutation (first :: rest) (values_for (fst e) [ops]) /\
+                                        fold_merge (mf f) (fst e) first rest = Some (snd e)) out.
+Proof. intros f sort Ha Hp Hs. exact (sorter_output f Ha sort Hp Hs). Qed.
+Print Assumptions T06a_sorter_output.
 
 Theorem T06b_spill_bound : forall mergef sort s k v s' r, 1 <= so_max_memory s ->
   sorter_add mergef sort s k v = Ok (s', r) -> so_iterating s = false ->
@@ -72,10 +59,10 @@ Print Assumptions T06c_chunk_sorted_partial.
 Example T06_example :
   let mf := fun (_ a b : bytes) => Some (a ++ [124] ++ b) in
   let sort := fun l : list entry => l in   (* already key-sorted inputs per chunk below *)
-  match adds mf sort (sorter_init 40) [([97], [1]); ([98], [2]); ([98], [3]); ([97], [4]); ([99], [5])] with
+  match adds (fun _ a b => a ++ [124] ++ b) sort (sorter_init 40) [([97], [1]); ([98], [2]); ([98], [3]); ([97], [4]); ([99], [5])] with
   | Ok s => length (so_chunks s) = 1%nat /\
             match sorter_iter (Some mf) sort s with
-            | Ok (_, Some it) => sdrain mf 10 it = [([97], [1; 124; 4]); ([98], [2; 124; 3]); ([99], [5])]
+            | Ok (_, Some it) => mdrain mf 10 it = [([97], [1; 124; 4]); ([98], [2; 124; 3]); ([99], [5])]
             | _ => False
             end
   | _ => False
